@@ -40,12 +40,13 @@ type c12vGate struct {
 	open     bool
 	closed   bool
 	sent     [][]byte
+	sentTo   []string // destination address of each sent datagram
 	inflight int
 }
 
 func c12vNewGate() *c12vGate { g := &c12vGate{}; g.cond = sync.NewCond(&g.mu); return g }
 
-func (g *c12vGate) WriteTo(p []byte, _ net.Addr) (int, error) {
+func (g *c12vGate) WriteTo(p []byte, to net.Addr) (int, error) {
 	g.mu.Lock()
 	defer g.mu.Unlock()
 	g.inflight++
@@ -61,6 +62,11 @@ func (g *c12vGate) WriteTo(p []byte, _ net.Addr) (int, error) {
 	}
 	// the datagram leaves the host NOW: record what is in the slice at this moment
 	g.sent = append(g.sent, append([]byte(nil), p...))
+	if to != nil {
+		g.sentTo = append(g.sentTo, to.String())
+	} else {
+		g.sentTo = append(g.sentTo, "")
+	}
 	return len(p), nil
 }
 
@@ -82,6 +88,12 @@ func (g *c12vGate) Sent() [][]byte {
 	g.mu.Lock()
 	defer g.mu.Unlock()
 	return append([][]byte(nil), g.sent...)
+}
+
+func (g *c12vGate) SentWithAddr() ([][]byte, []string) {
+	g.mu.Lock()
+	defer g.mu.Unlock()
+	return append([][]byte(nil), g.sent...), append([]string(nil), g.sentTo...)
 }
 
 func (g *c12vGate) SentCount() int {
